@@ -26,6 +26,7 @@ UNITS['c16'] = {
         ('p2u_no_cr_stop', "|| c == '\\n' || c == '\\r' {", "|| c == '\\n' {", ['C16.p2u']),
         ('u2p_gt_instead_of_ge', 'if utf8_index >= index {', 'if utf8_index > index {', ['C16.u2p']),
         ('u2p_no_column_reset', 'line += 1; character = 0;', 'line += 1;', ['C16.u2p']),
+        ('char_index_gt', 'if utf8_index >= index { return char_index; }', 'if utf8_index > index { return char_index; }', ['C16.char_index']),
         ('range_end_is_start', 'let end = utf8_to_position(text, range.end);', 'let end = utf8_to_position(text, range.start);', ['C16.range']),
     ],
 }
@@ -295,7 +296,7 @@ PROPS = {
                       'and span selection are verified callers of those contracts.',
         'level_note': 'Trusted: char::len_utf16 (1 below U+10000, else 2); vstd\'s model of str::chars and char::len_utf8; texts < 2^30 chars; '
                       'positions whose column falls inside a surrogate pair and texts with a lone CR are outside the decided domain; '
-                      'utf8_to_char_index (span.rs) only by a bounded Kani harness (labelled bounded, not counted).',
+                      'str::char_indices as the (byte offset, char) pairs of the text (R-local rewrite to a shim).',
         'design_ref': 'DESIGN.md section 5, C16',
         'explanation': 'Real functions verified against reference spec functions (off/lines_before/col16/skip_lines/advance_col); property clauses are exec callers verified modularly.',
         'assumptions': [
@@ -303,7 +304,7 @@ PROPS = {
             'round trip is decided for LF / CRLF texts (no lone CR); the offset strictly between CR and LF is a separate obligation (known finding)',
             'position columns strictly inside a surrogate pair: only totality and boundary-ness of the result are decided',
         ],
-        'not_decided': ['utf8_to_char_index / CharSpan::from beyond the Kani bound'],
+        'not_decided': ['CharSpan::from beyond the Kani bound (it only calls utf8_to_char_index on both ends)'],
     },
     'C14': {
         'units': ['c14'],
